@@ -47,6 +47,22 @@ CLAIMS = {
    text="Decides the inductive step of the sequence-number bookkeeping and the header stamping by identity of SSA values: the header carries F0 + GetNumberOfRecords() exactly on the Data edge and F0 otherwise, the field is updated to the same value, only the constructor and the send function write it, its type is uint32; the builder forwards seq / domain / uint32(time.Unix()) / version 10 unmodified; time.Now() is taken at the call; one Write of the whole slice outside any loop; the success return is Write's count under err==nil && count==len. The running equality over a session follows by induction and is not enumerated; failed sends are outside the statement.",
    note="Trusted: sync/atomic, net.Conn.Write, time.Now.",
    ref="DESIGN.md §5 C08"),
+ "C11": dict(
+   technique="def-use chain from decodePacket's argument back to make([]byte, L) / io.ReadFull / the length function on the same bufio.Reader (identity through closure captures), loop-exit path rule for every error edge, defer/select shape of the exit protocol (go/ssa)",
+   text="Decides the structural reason framing is segmentation-independent: the message buffer has exactly the length decoded (non-consuming Peek(4), big-endian u16 at offset 2) from the same reader, is completely filled by a full-read idiom and is the very slice handed to the decoder; nothing else consumes the reader; the reader is created once per connection; every error edge of the read loop leaves the loop; the reader's exit closes the connection through doneCh. Behaviour under real segmentation is implied, not observed.",
+   note="Trusted: io.ReadFull, bufio.Reader.Peek.", ref="DESIGN.md §5 C11"),
+ "C04": dict(
+   technique="who-may-touch + key-origin analysis (map keys traced through parameters/closures to decoded wire variables by position in util.Decode), must-pass-through path rules for invalidation/store/replace, lockset import (go/ssa)",
+   text="Decides the per-message transition of the template store: only add/delete/lookup touch it; outer ops keyed by the uint32 domain parameter and inner ops by the uint16 template-id parameter; call-site arguments originate from the observation-domain / set-id / template-id wire variables of the same message; every error return after the id is known passes deleteTemplate(obs,id) (two infeasible builder errors named), every success passes addTemplate; the field list is replaced on all paths from the incoming elements; lookup failure returns before any decoding. Histories are not enumerated.",
+   note="Trusted: Go maps; PrepareSet(Template)/AddRecordV2 cannot fail on a fresh decoding set.", ref="DESIGN.md §5 C04"),
+ "C10": dict(
+   technique="path rules 'refresh expiry then exactly one of AfterFunc-install/Reset', shape+origin check of the timer callback and its condition closure (parameter vs. captured object, Now() taken inside), stop-then-delete path rule, lockset for template fields (go/ssa)",
+   text="Decides the structural preconditions the timer protocol relies on: every UDP (re)transmission refreshes expiryTime=now+TTL and arms exactly one timer for the same TTL; the callback deletes only through the conditional delete, for the keys it was armed for, re-checking the CURRENT template's expiryTime against a fresh Now() with !After; Stop() is followed by the deletion on every path and every deletion stops a non-nil timer; emptied domains are pruned; all under the collector mutex. Interleavings (fired-but-pending vs refresh) are schedules and are not enumerated.",
+   note="Trusted: time.Timer/AfterFunc semantics.", ref="DESIGN.md §5 C10"),
+ "C17": dict(
+   technique="sibling cross-check of the two registry-miss branches with argument-origin identity, phi/edge-fact analysis of the consumed length, dominance of the drop decision by the consumption, registry literal table lifted from the AST",
+   text="Decides that unknown elements are handled identically in both sibling branches (strict => error; else nameless OctetArray substitute with the looked-up id/enterprise and the WIRE length), that data-record bytes are consumed by one length selection (prefix vs fixed) before and independently of the drop decision, that the drop criterion is 'drop mode && nameless', that no decodable registry entry is nameless, and that keep mode copies exactly the bytes given. Value equality across modes is implied by identical consumption, not observed.",
+   note="Trusted: registry lookup errors iff unregistered.", ref="DESIGN.md §5 C17"),
 }
 NOT_YET = "rules designed (DESIGN.md §5) but not built yet in this round; no claim is made until the check exists"
 props=[json.loads(l) for l in open('/verif/properties.jsonl')]
